@@ -35,6 +35,19 @@ type History struct {
 	Branches []*Branch
 	Rejected map[string]bool
 	ts       int
+	// Wild: sender-chosen timestamps spread over the whole uint64 range (1, 2^62, 2^63+5, 2^63+7, 2^64-1): room versions
+	// whose canonical JSON is not enforced accept them, and a comparator that subtracts instead of comparing is no longer
+	// a total order on them (seeded change C11-r8m2).
+	Wild bool
+}
+
+var wildStamps = []uint64{3, 1 << 62, 1<<63 + 5, 1<<63 + 7, ^uint64(0), 1<<62 + 1, 2, 1 << 63}
+
+func (h *History) stamp(ts int) interface{} {
+	if h.Wild {
+		return wildStamps[ts%len(wildStamps)]
+	}
+	return ts
 }
 
 func (h *History) stateEvents(b *Branch) []gmsl.PDU {
@@ -69,7 +82,7 @@ func (h *History) authFor(b *Branch, typ, sender string, stateKey *string, conte
 // the auth rules allow on that branch (otherwise the event is kept but marked rejected when reject is set).
 func (h *History) Send(r *Rng, b *Branch, typ, sender string, stateKey *string, content interface{}, ts int) *Ev {
 	auth := h.authFor(b, typ, sender, stateKey, content)
-	extra := map[string]interface{}{"origin_server_ts": ts, "depth": b.Depth + 1}
+	extra := map[string]interface{}{"origin_server_ts": h.stamp(ts), "depth": b.Depth + 1}
 	prev := []string{b.Tip}
 	// a reference named twice by one event (the parsers accept it) is one dependency (seeded change C11-r5m2)
 	if r.Chance(6) {
@@ -106,7 +119,7 @@ func (h *History) Send(r *Rng, b *Branch, typ, sender string, stateKey *string, 
 // sets received from other servers may hold anything).
 func (h *History) Force(b *Branch, typ, sender string, stateKey string, content interface{}, ts int) *Ev {
 	auth := h.authFor(b, typ, sender, &stateKey, content)
-	extra := map[string]interface{}{"origin_server_ts": ts, "depth": b.Depth + 1}
+	extra := map[string]interface{}{"origin_server_ts": h.stamp(ts), "depth": b.Depth + 1}
 	e := h.G.Mk(typ, sender, &stateKey, content, []string{b.Tip}, auth, extra)
 	if e == nil {
 		return nil
@@ -127,6 +140,9 @@ func GenHistoryOpt(r *Rng, ver string, size int, oddKeys bool) *History {
 	g := NewRoomGen(r, ver)
 	h := &History{G: g, ByID: map[string]*Ev{}, Rejected: map[string]bool{}, OddKeys: oddKeys}
 	verImpl := gmsl.MustGetRoomVersion(gmsl.RoomVersion(ver))
+	if err := verImpl.CheckCanonicalJSON([]byte(`{"a":18446744073709551615}`)); err == nil && r.Chance(12) {
+		h.Wild = true
+	}
 	users := []string{"@creator:hs1", "@alice:hs1", "@bob:hs2", "@carol:hs3", "@dave:hs2"}
 	creator := users[0]
 	cc := map[string]interface{}{"room_version": ver}
